@@ -54,6 +54,7 @@ type vfakeMetadata struct {
 	failNext  func() bool
 	writeMask func(vbID uint16) bool
 	onSave    func()
+	loadErr   error
 }
 
 type vStoreErr struct{}
@@ -77,6 +78,9 @@ func (f *vfakeMetadata) Save(state map[uint16]*models.CheckpointDocument, dirty 
 }
 
 func (f *vfakeMetadata) Load(vbIds []uint16, bucketUUID string) (*wrapper.ConcurrentSwissMap[uint16, *models.CheckpointDocument], bool, error) {
+	if f.loadErr != nil {
+		return nil, false, f.loadErr
+	}
 	state := wrapper.CreateConcurrentSwissMap[uint16, *models.CheckpointDocument](1024)
 	exist := false
 	for _, vbID := range vbIds {
